@@ -23,6 +23,36 @@ CHECKS = {
         "Sequential semantics only; alphabet-bounded (2 nodes, 2 children, 2 value types, 2 values). Trusts the harness transport (implements the public Transport ABC).",
         "5/C07",
     ),
+    "C04": ("E1", "model_checking",
+        "explicit-state model checking of the implementation (depth-bounded BFS) against a reference registry model",
+        "All histories of received messages up to depth 5 (quick) / 5-6 (thorough) over a 28-36 event alphabet, per protocol version, on the real Gateway; after every transition the registry, the outcome (yield / error naming the node or child) and the consumed-line count are compared with a reference registry.",
+        "Depth-bounded (state space does not close). 2 nodes x 2 children x 2 value types. Attributes not fixed by the statement after a re-presentation are not compared until next reported.",
+        "5/C04"),
+    "C05": ("E1", "model_checking",
+        "exhaustive version-string and type-number grids through the real setter/wire + explicit-state BFS over version-report histories with an agreement invariant",
+        "650 version strings x 3 ways of reporting; every internal type -1..40 and stream type -1..8 per version; all histories (depth 4/5) of 8 version reports x 2 carriers mixed with traffic and type probes, invariant 'reported version, handlers and codec agree' in every state.",
+        "Type tables from the MySensors serial API. Junk reports may be rejected or ignored.",
+        "5/C05"),
+    "C06": ("E1", "model_checking",
+        "explicit-state model checking of the implementation (depth-bounded BFS) against a reaction table",
+        "All histories to depth 5 (quick) / 7 (thorough) over ~22 events x version unknown + five versions x metric/imperial; per transition the multiset of writes must equal the reaction table (id/config/time/req/discover/reboot/version query); plus a grid over 4 time zones x 2 instants.",
+        "time.localtime/time.time frozen; presentation requests filtered by form (C10).",
+        "5/C06"),
+    "C10": ("E1", "model_checking",
+        "explicit-state model checking of the implementation (BFS to a fixed point) against an 'outstanding request' model, with write-fault events",
+        "Closed state space for 2 (quick) / 3 (thorough) nodes x every message kind that can hit a missing node/child x optional write fault, all five versions; every transition checked: exactly one request per episode under 2.x, none under 1.x, failed request not counted.",
+        "Report payloads equal attribute defaults so the registry stays finite.",
+        "5/C10"),
+    "C11": ("E1", "model_checking",
+        "explicit-state BFS from 337-670 initial registries over id requests and presentations",
+        "Every subset of {0,1,2,3,253,254,255} plus dense/sparse registries as initial state, all sequences of id requests / presentations to depth 3 (quick) / 5 (thorough); registry inspected at the instant of the transport write.",
+        "Depth-bounded per initial registry.",
+        "5/C11"),
+    "C19": ("E1", "model_checking",
+        "differential explicit-state BFS over the product of two real gateways (old, new protocol)",
+        "8 version pairs; every internal/stream type of the older table x 3 payloads in 3-7 base states, and all histories to depth 4 (quick) / 6 (thorough) of lines and send calls; outcome, writes and registry must agree per step.",
+        "Heartbeat response excluded across 2.1->2.2; cross-major pairs restricted to known nodes/children.",
+        "5/C19"),
 }
 
 NOT_YET = {
